@@ -41,7 +41,7 @@ ASSUMPTIONS = ["ChaCha20-Poly1305 in ipv8_rust_tunnels is trusted (the oracle pe
                "the native ipv8_rust_tunnels.Endpoint is not covered"]
 REACH = ["delivered_forward", "delivered_backward", "layer_checked_forward", "layer_checked_backward", "hops:1", "hops:2",
          "hops:3", "fault:flip", "fault:cid", "fault:splice", "fault:inject", "fault:flag", "fault:plain_data", "tampered_dropped",
-         "speedtest_ok"]
+         "speedtest_ok", "e2e_linked", "e2e_delivered", "e2e_reader_checked", "sent_from_ready_callback", "plain_reader_checked"]
 
 SIZES = [2, 3, 10, 22, 23, 24, 64, 100, 279, 500, 1000, 1399, 1400]
 
@@ -59,9 +59,23 @@ def cases(tier: str, base_seed: int):  # noqa: ANN201
             n += 1
             yield {"seed": base_seed + n, "hops": hops, "knobs": {}, "sizes": [64, 279], "second_circuit": True,
                    "faults": [{"kind": "sweep", "cell": cell, "stride": 3 if tier == "quick" else 1}]}
+    # hidden-service (end-to-end) circuits: fault-free, then with tampering
+    for k in range(3 if tier == "quick" else 12):
+        n += 1
+        yield {"kind": "e2e", "seed": base_seed + n, "knobs": {"lat_jit": 0.0}, "sizes": [64, 279, 1000], "faults": [],
+               "send_in_callback": k % 2 == 0}
     for i in itertools.count():
         seed = base_seed + 1000 + i
         rng = random.Random(f"c04/{seed}")
+        if i % 6 == 5:
+            fl = []
+            for _ in range(rng.choice([0, 0, 2, 6])):
+                fl.append({"kind": rng.choice(["flip", "flip", "flag", "cid", "inject"]), "cell": rng.randrange(0, 40),
+                           "pos": rng.random(), "mask": 1 << rng.randrange(8), "mode": rng.choice(["alter", "extra"])})
+            yield {"kind": "e2e", "seed": seed, "knobs": {"lat_jit": rng.choice([0.0, 0.02]), "timer_jitter": 0.0},
+                   "sizes": [rng.randrange(20, 1300) for _ in range(rng.choice([1, 3, 6]))], "faults": fl,
+                   "send_in_callback": rng.random() < 0.5}
+            continue
         hops = rng.choice([1, 2, 2, 3, 3])
         sizes = [rng.choice([rng.randrange(2, 1401), rng.choice(SIZES)]) for _ in range(rng.choice([2, 4, 8]))]
         knobs = {"lat_jit": rng.choice([0.0, 0.02, 0.1]), "timer_jitter": rng.choice([0.0, 0.001])}
@@ -78,7 +92,222 @@ def cases(tier: str, base_seed: int):  # noqa: ANN201
                "second_circuit": mode == "tamper" or rng.random() < 0.3}
 
 
+def readers(tw, pkt, marker: bytes, max_depth: int = 4) -> bool:  # noqa: ANN001
+    """Can the RECEIVER of this cell, with the session keys it holds, peel it down to something containing the marker?"""
+    parts = cell_parts(pkt.orig or pkt.data)
+    node = tw.node_of_ip(pkt.dst[0])
+    if parts is None or node is None:
+        return False
+    keys = [k for n, _s, k in tw.session_keys if n == node.name]
+    seen = {parts[3]}
+    frontier = [parts[3]]
+    for _ in range(max_depth):
+        nxt = []
+        for body in frontier:
+            if marker in body:
+                return True
+            for k in keys:
+                for d in (0, 1):
+                    try:
+                        out = k.decrypt_str(body, d)
+                    except Exception:  # noqa: BLE001, S112
+                        continue
+                    if out not in seen:
+                        seen.add(out)
+                        nxt.append(out)
+        frontier = nxt
+        if not frontier:
+            break
+    return any(marker in b for b in frontier)
+
+
+class StubDHT:
+    """Stand-in for the DHT provider of the hidden-service code (a shared dictionary, as in the repository's own mock)."""
+
+    table: dict = {}
+
+    def __init__(self, peer) -> None:  # noqa: ANN001
+        self.peer = peer
+
+    async def peer_lookup(self, mid, peer=None):  # noqa: ANN001, ANN201
+        return None
+
+    async def lookup(self, info_hash):  # noqa: ANN001, ANN201
+        return info_hash, list(self.table.get(info_hash, []))
+
+    async def announce(self, info_hash, intro_point) -> None:  # noqa: ANN001
+        self.table.setdefault(info_hash, []).append(intro_point)
+
+
+def execute_e2e(case: dict) -> dict:  # noqa: C901, PLR0915
+    """Hidden-service circuit: downloader - (hop) - rendezvous point - (hop) - seeder, plus the extra end-to-end layer."""
+    c = Case(case, net=True, first_only=False)
+    world, net = c.world, c.net
+    rng = world.stream("c04e2e")
+    StubDHT.table = {}
+    tw = TunnelWorld(c, n=6, exits=(4, 5), hidden=True)
+    faults = case.get("faults", [])
+    state = {"phase": "build", "cells": 0, "tampered_ids": set()}
+    sent: dict = {}          # payload -> (marker, direction)
+    got = {"seeder": [], "downloader": []}
+    service = b"\x5a" * 20
+
+    def flt(pkt):  # noqa: ANN001, ANN202
+        if state["phase"] != "data" or pkt.injected:
+            return None
+        addrs = {n.address for n in tw.nodes}
+        if pkt.src not in addrs or pkt.dst not in addrs or cell_parts(pkt.data) is None:
+            return None
+        n = state["cells"]
+        state["cells"] += 1
+        out = None
+        for f in faults:
+            if f.get("cell") != n:
+                continue
+            world.probe("fault:" + f["kind"])
+            b = bytearray(pkt.data)
+            if f["kind"] == "flip":
+                p = int(f["pos"] * len(b)) % len(b)
+                b[p] ^= f["mask"]
+            elif f["kind"] == "flag":
+                b[27 + (0 if f["pos"] < 0.5 else 1)] ^= 1
+            elif f["kind"] == "cid":
+                b[23:27] = rng.getrandbits(32).to_bytes(4, "big")
+            elif f["kind"] == "inject":
+                b = bytearray(pkt.data[:29] + rng.randbytes(rng.choice([1, 30, 200])))
+            if bytes(b) == pkt.data:
+                continue
+            if f.get("mode") == "alter":
+                out = bytes(b)
+                state["tampered_ids"].add(pkt.id)
+            else:
+                inj = net.inject(pkt.src, pkt.dst, bytes(b), delay=0.0005 + f["pos"] * 0.02, label="tampered")
+                state["tampered_ids"].add(inj.id)
+        return out
+    net.filters.append(flt)
+
+    res: dict = {}
+
+    async def main() -> None:  # noqa: C901, PLR0915
+        await tw.build()
+        for node in tw.nodes:
+            node.ov.dht_provider = StubDHT(node.my_peer)
+            node.ov.settings.swarm_lookup_interval = 0
+        await tw.introduce()
+        d, s_ = tw.nodes[0], tw.nodes[2]
+        linked = {"d": None, "s": None}
+        first: dict = {}
+
+        def send_e2e(node, who: str, payload: bytes) -> bool:  # noqa: ANN001
+            ctypes = ("RP_DOWNLOADER",) if who == "d" else ("RP_SEEDER",)
+            circ = next((x for x in node.ov.circuits.values() if x.ctype in ctypes and x.state == "READY"), None)
+            if circ is None:
+                return False
+            node.call(node.ov.send_data, circ.hop.address, circ.circuit_id, ("0.0.0.0", 0), ("0.0.0.0", 0), payload)
+            return True
+
+        def mk(direction: str, size: int) -> bytes:
+            marker = b"E2E%s%04d" % (direction.encode(), len(sent)) + rng.randbytes(4).hex().encode()
+            payload = b"d" + marker + rng.randbytes(max(0, size - 2 - len(marker))) + b"e"
+            sent[payload] = (marker, direction)
+            return payload
+
+        def d_cb(addr) -> None:  # noqa: ANN001
+            linked["d"] = addr
+            if case.get("send_in_callback") and "p" not in first:
+                # an application that starts talking from inside its "circuit is ready" callback
+                state["phase"] = "data"
+                first["p"] = mk("d", 100)
+                send_e2e(d, "d", first["p"])
+                world.probe("sent_from_ready_callback")
+
+        d.call(d.ov.join_swarm, service, 1, d_cb, False)
+        s_.call(s_.ov.join_swarm, service, 1, lambda addr: linked.__setitem__("s", addr))
+        s_.ov.on_raw_data = lambda circ, origin, data: got["seeder"].append((circ.circuit_id, tuple(origin), data))
+        d.ov.on_raw_data = lambda circ, origin, data: got["downloader"].append((circ.circuit_id, tuple(origin), data))
+        await s_.acall(s_.ov.create_introduction_point, service)
+        await asyncio.sleep(2.0)
+        d.call(d.ov.build_tunnels, 1)
+        for _ in range(6):
+            await asyncio.sleep(2.0)
+            await d.acall(d.ov.do_peer_discovery)
+            if linked["d"] is not None:
+                break
+        await asyncio.sleep(2.0)
+        if linked["d"] is None:
+            world.probe("e2e_not_linked")
+            return
+        world.probe("e2e_linked")
+        state["phase"] = "data"
+        for size in case["sizes"]:
+            send_e2e(d, "d", mk("d", size))
+            await asyncio.sleep(0.2)
+            send_e2e(s_, "s", mk("s", size))
+            await asyncio.sleep(0.3)
+        await asyncio.sleep(3.0)
+        state["phase"] = "done"
+        res["ok"] = True
+        res["d"], res["s"] = d, s_
+
+    try:
+        world.run(main())
+    finally:
+        async def down() -> None:
+            await tw.teardown()
+        try:
+            world.run(down())
+        except Exception:  # noqa: BLE001
+            tw.uninstall_probes()
+    if res.get("ok"):
+        d, s_ = res["d"], res["s"]
+        lossy = bool(faults) or bool(case["knobs"].get("loss")) or case["knobs"].get("lat_jit", 0.045) != 0 \
+            or bool(case["knobs"].get("timer_jitter"))
+        seen = {"d": set(), "s": set()}
+        for who, lst in (("d", got["seeder"]), ("s", got["downloader"])):
+            for _cid, _origin, data in lst:
+                if data not in sent or sent[data][1] != who:
+                    c.violate("intact_or_dropped", "altered_data_delivered_over_e2e_circuit",
+                              f"{'seeder' if who == 'd' else 'downloader'} got {len(data)} bytes never sent to it: {data[:30]!r}")
+                else:
+                    seen[who].add(data)
+                    world.probe("e2e_delivered")
+                    c.nontrivial(f"e2e/{who}/{len(data)}")
+        if not lossy:
+            for p, (_m, who) in sent.items():
+                if p not in seen[who]:
+                    c.violate("delivery", "e2e_payload_not_delivered_fault_free",
+                              f"{len(p)}-byte payload from the {'downloader' if who == 'd' else 'seeder'} never arrived "
+                              f"(sent from the ready callback: {bool(case.get('send_in_callback'))})")
+        # nobody but the two ends can read the payload: neither on the wire nor after peeling every layer the receiver has keys for
+        ends = {d.name, s_.name}
+        addrs = {n.address for n in tw.nodes}
+        for pkt in tw.wire:
+            if pkt.injected or pkt.id in state["tampered_ids"] or pkt.src not in addrs or pkt.dst not in addrs:
+                continue
+            raw = pkt.orig or pkt.data
+            for _p, (marker, _who) in sent.items():
+                if marker in raw:
+                    c.violate("no_plaintext_in_transit", "plaintext_marker_on_tunnel_link",
+                              f"e2e marker visible in a datagram from {pkt.src_node} to {pkt.dst}")
+            rcv = tw.node_of_ip(pkt.dst[0])
+            if rcv is None or rcv.name in ends or cell_parts(raw) is None:
+                continue
+            for _p, (marker, _who) in sent.items():
+                if readers(tw, pkt, marker):
+                    c.violate("e2e_layer", "intermediate_node_can_read_e2e_payload",
+                              f"{rcv.name} (not an end of the e2e circuit) can peel a cell from {pkt.src_node} down to the payload "
+                              f"with the session keys it holds")
+                    break
+            world.probe("e2e_reader_checked")
+    world.trace.event("c04e2e", None, (len(sent), len(got["seeder"]), len(got["downloader"])))
+    c.sample = {"kind": "e2e", "sizes": case["sizes"][:6], "faults": faults[:4], "linked": bool(res.get("ok")),
+                "delivered_at_seeder": len(got["seeder"]), "delivered_at_downloader": len(got["downloader"])}
+    return c.result(evaluations=max(1, len(sent)))
+
+
 def execute(case: dict) -> dict:  # noqa: C901, PLR0915
+    if case.get("kind") == "e2e":
+        return execute_e2e(case)
     c = Case(case, net=True, first_only=False)
     world, net = c.world, c.net
     rng = world.stream("c04")
@@ -315,6 +544,21 @@ def execute(case: dict) -> dict:  # noqa: C901, PLR0915
                     c.violate("distinct_ciphertext", "same_ciphertext_on_two_links",
                               f"cell body of {len(parts[3])} bytes seen on {prev} and on {(pkt.src_node, pkt.dst)}")
                 link_bodies.setdefault(parts[3], (pkt.src_node, pkt.dst))
+    # who can read: a relay (any node of the path but the exit) must not be able to peel a cell down to the payload with the
+    # session keys it holds
+    relay_names = {n.name for n in path[:-1] if n is not None}
+    markers = [m for m in sent_fwd.values() if m]
+    for pkt in tw.wire:
+        if pkt.injected or pkt.id in state["tampered_ids"] or pkt.dst not in tunnel_addrs or pkt.src not in tunnel_addrs:
+            continue
+        rcv = tw.node_of_ip(pkt.dst[0])
+        if rcv is None or rcv.name not in relay_names or cell_parts(pkt.orig or pkt.data) is None:
+            continue
+        world.probe("plain_reader_checked")
+        if any(readers(tw, pkt, m) for m in markers[:6]):
+            c.violate("layering", "relay_can_read_payload",
+                      f"relay {rcv.name} can peel a cell from {pkt.src_node} down to the payload with the session keys it holds")
+            break
     FORWARD, BACKWARD = 0, 1
     for pkt in tw.wire:
         if pkt.label != "DataPayload" or pkt.injected or pkt.orig is not None or pkt.id in state["tampered_ids"]:
